@@ -118,3 +118,9 @@ Proof. intros ->. rewrite firstn_app, Nat.sub_diag, firstn_all. simpl. apply app
 
 Lemma skipn_app_exact {A} n (a b : list A) : n = length a -> skipn n (a ++ b) = b.
 Proof. intros ->. rewrite skipn_app, Nat.sub_diag, skipn_all. reflexivity. Qed.
+
+Lemma skipn_skipn' {A} a b (l : list A) : skipn a (skipn b l) = skipn (b + a) l.
+Proof.
+  revert l; induction b as [|b IH]; intros l; [reflexivity|].
+  destruct l as [|x l]; cbn [skipn Nat.add]; [now rewrite skipn_nil|]. apply IH.
+Qed.
